@@ -6,6 +6,7 @@ mod s1_filters;
 mod s3_reservoir;
 mod s4_digest;
 mod s5_topk;
+mod s8_storage;
 
 use framework::*;
 
@@ -65,6 +66,10 @@ fn plan(ctx: &mut CheckCtx, k: f64) {
             ctx.required_probes = vec!["inflated_newcomer_while_heap_has_room", "collision_free_prefix", "prefix_with_sketch_error"];
             ctx.run::<s5_topk::S5b>(n(60_000));
         }
+        "C20" => {
+            ctx.required_probes = vec!["accepted", "rejected", "round_trip_ok", "store_truncate", "store_bitflip", "store_torn", "store_field_drop", "store_field_dup", "store_field_range", "store_field_retype"];
+            ctx.run::<s8_storage::S8>(n(900));
+        }
         "C05" => {
             // one evaluation = one (k, n) cell = a batch of sampler runs; the grid is fixed per tier
             let cells = s3_reservoir::small_grid().len() + if ctx.tier == Tier::Thorough { s3_reservoir::large_grid().len() } else { 0 };
@@ -99,6 +104,7 @@ fn replay(path: &str) -> i32 {
         "S1-filter-node" => replay_case::<s1_filters::S1>(&doc, prop),
         "S5a-lossycounter" => replay_case::<s5_topk::S5a>(&doc, prop),
         "S5b-cmsheap" => replay_case::<s5_topk::S5b>(&doc, prop),
+        "S8-storage" => replay_case::<s8_storage::S8>(&doc, prop),
         "S4-digest" => replay_case::<s4_digest::S4>(&doc, prop),
         "S3a-reservoir-invariants" => replay_case::<s3_reservoir::S3a>(&doc, prop),
         "S3b-reservoir-uniformity" => replay_case::<s3_reservoir::S3b>(&doc, prop),
@@ -121,7 +127,7 @@ fn replay(path: &str) -> i32 {
 }
 
 /// Claimed properties (everything `plan` knows).
-const CLAIMED: &[&str] = &["C01", "C04", "C05", "C09", "C10", "C12", "C13", "C14", "C15", "C16", "C18"];
+const CLAIMED: &[&str] = &["C01", "C04", "C05", "C09", "C10", "C12", "C13", "C14", "C15", "C16", "C18", "C20"];
 
 /// Proves determinism on a sample: every claimed check is run in separate processes with the same
 /// seed at 1, 5 and 16 workers (and the 16-worker one twice); the event-log hashes (per-run
